@@ -35,9 +35,68 @@ fn limit_file_size() {
     });
 }
 
-fn outcome_apply(root: &str, tree: &str, mode: &str, patch: &[u8]) -> String {
+/// A case of this file prepared for calling: the scratch directory it works in (removed on drop)
+/// and the two arguments of the call.
+pub struct Prepared {
+    tmp: TempDir,
+    op: u8,
+    a: String,
+    n: usize,
+}
+
+impl Prepared {
+    /// one call of the entry point on the scratch directory *as it is now* (`apply` changes it)
+    pub fn call(&self) -> String {
+        let a = self.a.clone();
+        match self.op {
+            b'a' => {
+                let p = self.tmp.path().join("a").join("b").join("c").join("patch.bin").to_str().unwrap().to_string();
+                crate::alloc::measured(self.n, move || {
+                    guarded(move || match physis::patch::ZiPatch::apply(&a, &p) {
+                        Ok(()) => "ok".to_string(),
+                        Err(_) => "err".to_string(),
+                    })
+                })
+            }
+            b'x' => crate::alloc::measured(self.n, move || {
+                guarded(move || match physis::execlookup::extract_frontier_url(&a) {
+                    None => "none".to_string(),
+                    Some(s) => {
+                        let mut d = D::new();
+                        d.bytes(s.as_bytes());
+                        format!("some:{}", d.hex())
+                    }
+                })
+            }),
+            _ => crate::alloc::measured(self.n, move || {
+                guarded(move || match physis::bootdata::BootData::from_existing(&a) {
+                    None => "none".to_string(),
+                    Some(bd) => {
+                        let mut d = D::new();
+                        d.bytes(bd.version.as_bytes());
+                        format!("some:{}", d.hex())
+                    }
+                })
+            }),
+        }
+    }
+}
+
+/// Scratch directory for a case that is called hundreds of times: in memory (`/dev/shm`) when
+/// nothing else was asked for through `VERIF_TMP` / `TMPDIR`.  On a journalling file system the
+/// truncate-and-rewrite of an AddFile target is flushed at every close, milliseconds per call.
+fn scratch(tag: &str) -> TempDir {
+    if tag != "c17rep" || std::env::var("VERIF_TMP").is_ok() || std::env::var("TMPDIR").is_ok() {
+        return TempDir::new(tag);
+    }
+    let p = PathBuf::from("/dev/shm").join(format!("physis-verif-{}-{}", std::process::id(), tag));
+    let _ = std::fs::remove_dir_all(&p);
+    if std::fs::create_dir_all(&p).is_ok() { TempDir(p) } else { TempDir::new(tag) }
+}
+
+fn prepare_apply(tag: &str, root: &str, tree: &str, mode: &str, patch: &[u8]) -> Prepared {
     limit_file_size();
-    let tmp = TempDir::new("c17");
+    let tmp = scratch(tag);
     // nested so that a stray `..` in a corrupted path cannot leave the scratch area
     let base = tmp.path().join("a").join("b").join("c");
     std::fs::create_dir_all(&base).unwrap();
@@ -66,40 +125,24 @@ fn outcome_apply(root: &str, tree: &str, mode: &str, patch: &[u8]) -> String {
         "isdir" => std::fs::create_dir_all(&pp).unwrap(),
         _ => {}
     }
-    let d = data.to_str().unwrap().to_string();
-    let p = pp.to_str().unwrap().to_string();
-    let n = patch.len();
-    crate::alloc::measured(n, move || {
-        guarded(move || match physis::patch::ZiPatch::apply(&d, &p) {
-            Ok(()) => "ok".to_string(),
-            Err(_) => "err".to_string(),
-        })
-    })
+    let a = data.to_str().unwrap().to_string();
+    Prepared { tmp, op: b'a', a, n: patch.len() }
 }
 
-fn outcome_exec(mode: &str, b: &[u8]) -> String {
-    let tmp = TempDir::new("c17x");
+fn prepare_exec(tag: &str, mode: &str, b: &[u8]) -> Prepared {
+    let tmp = scratch(tag);
     let p = tmp.path().join("ffxivlauncher.exe");
     match mode {
         "file" => std::fs::write(&p, b).unwrap(),
         "isdir" => std::fs::create_dir_all(&p).unwrap(),
         _ => {}
     }
-    let ps = p.to_str().unwrap().to_string();
-    crate::alloc::measured(b.len(), move || {
-        guarded(move || match physis::execlookup::extract_frontier_url(&ps) {
-            None => "none".to_string(),
-            Some(s) => {
-                let mut d = D::new();
-                d.bytes(s.as_bytes());
-                format!("some:{}", d.hex())
-            }
-        })
-    })
+    let a = p.to_str().unwrap().to_string();
+    Prepared { tmp, op: b'x', a, n: b.len() }
 }
 
-fn outcome_boot(mode: &str, b: &[u8]) -> String {
-    let tmp = TempDir::new("c17b");
+fn prepare_boot(tag: &str, mode: &str, b: &[u8]) -> Prepared {
+    let tmp = scratch(tag);
     let dir = tmp.path().join("boot");
     match mode {
         "ok" => {
@@ -110,37 +153,35 @@ fn outcome_boot(mode: &str, b: &[u8]) -> String {
         "verdir" => std::fs::create_dir_all(dir.join("ffxivboot.ver")).unwrap(),
         _ => {}
     }
-    let ds = dir.to_str().unwrap().to_string();
-    crate::alloc::measured(b.len(), move || {
-        guarded(move || match physis::bootdata::BootData::from_existing(&ds) {
-            None => "none".to_string(),
-            Some(bd) => {
-                let mut d = D::new();
-                d.bytes(bd.version.as_bytes());
-                format!("some:{}", d.hex())
+    let a = dir.to_str().unwrap().to_string();
+    Prepared { tmp, op: b'b', a, n: b.len() }
+}
+
+/// `None` = not a well-formed case of this file.  `tag` names the scratch directory.
+pub fn prepare(tag: &str, f: &[&str]) -> Option<Prepared> {
+    match f[0] {
+        "apply" if f.len() == 5 => {
+            let b = unhex(f[4])?;
+            if !["dir", "missing", "file"].contains(&f[1]) || !["file", "missing", "isdir"].contains(&f[3]) {
+                return None;
             }
-        })
-    })
+            Some(prepare_apply(tag, f[1], f[2], f[3], &b))
+        }
+        "execlookup" if f.len() == 3 => Some(prepare_exec(tag, f[1], &unhex(f[2])?)),
+        "bootdata" if f.len() == 3 => Some(prepare_boot(tag, f[1], &unhex(f[2])?)),
+        _ => None,
+    }
 }
 
 pub fn run(f: &[&str]) -> String {
-    match f[0] {
-        "apply" if f.len() == 5 => {
-            let Some(b) = unhex(f[4]) else { return "bad-case".into() };
-            if !["dir", "missing", "file"].contains(&f[1]) || !["file", "missing", "isdir"].contains(&f[3]) {
-                return "bad-case".into();
-            }
-            outcome_apply(f[1], f[2], f[3], &b)
-        }
-        "execlookup" if f.len() == 3 => {
-            let Some(b) = unhex(f[2]) else { return "bad-case".into() };
-            outcome_exec(f[1], &b)
-        }
-        "bootdata" if f.len() == 3 => {
-            let Some(b) = unhex(f[2]) else { return "bad-case".into() };
-            outcome_boot(f[1], &b)
-        }
-        _ => "bad-case".into(),
+    let tag = match f[0] {
+        "apply" => "c17",
+        "execlookup" => "c17x",
+        _ => "c17b",
+    };
+    match prepare(tag, f) {
+        Some(p) => p.call(),
+        None => "bad-case".into(),
     }
 }
 
@@ -323,6 +364,26 @@ impl PB {
     /// 3 / 4 stored-deflate whose header declares 2^20 / 2^20 + 1 decompressed bytes (the reader's
     /// limit and one beyond it)
     pub fn file_op(&mut self, op: u8, offset: u64, file_size: u64, exp: u16, path: &[u8], blocks: &[(u8, Vec<u8>)]) {
+        let raw: Vec<(i32, i32, Vec<u8>)> = blocks
+            .iter()
+            .map(|(kind, data)| match kind {
+                0 => (32000, data.len() as i32, data.clone()),
+                1 | 3 | 4 => {
+                    let mut b = vec![0x01, data.len() as u8, (data.len() >> 8) as u8, !(data.len() as u8), !((data.len() >> 8) as u8)];
+                    b.extend_from_slice(data);
+                    let declared = match kind { 1 => data.len() as i32, 3 => 1 << 20, _ => (1 << 20) + 1 };
+                    (b.len() as i32, declared, b)
+                }
+                _ => (data.len() as i32, 64, data.clone()),
+            })
+            .collect();
+        self.file_op_raw(op, offset, file_size, exp, path, &raw);
+    }
+    /// blocks as they are laid out in the file: (first length word `x` — the compressed length, or
+    /// 32000 for "not compressed" —, second length word `y` — the decompressed length —, the
+    /// bytes behind the 16-byte header).  The bytes are cut or zero-padded to what the reader
+    /// takes for a block with that `x`: `((x + 143) & !127) - 16`.
+    pub fn file_op_raw(&mut self, op: u8, offset: u64, file_size: u64, exp: u16, path: &[u8], blocks: &[(i32, i32, Vec<u8>)]) {
         let s = self.sqpk(b'F', match op { b'A' => "addfile", b'D' => "delfile", b'R' => "removeall", _ => "mkdir" });
         self.num(op as u64, 1, false);
         self.pad(2);
@@ -341,24 +402,15 @@ impl PB {
         self.fields.push((self.v.len(), 1, false));
         self.fields.push((self.v.len() + p.len() - 1, 1, false));
         self.v.extend_from_slice(&p);
-        for (kind, data) in blocks {
-            let (x, y, body): (i32, i32, Vec<u8>) = match kind {
-                0 => (32000, data.len() as i32, data.clone()),
-                1 | 3 | 4 => {
-                    let mut b = vec![0x01, data.len() as u8, (data.len() >> 8) as u8, !(data.len() as u8), !((data.len() >> 8) as u8)];
-                    b.extend_from_slice(data);
-                    let declared = match kind { 1 => data.len() as i32, 3 => 1 << 20, _ => (1 << 20) + 1 };
-                    (b.len() as i32, declared, b)
-                }
-                _ => (data.len() as i32, 64, data.clone()),
-            };
+        for (x, y, body) in blocks {
             // header.size = 16 (the header itself); header + body are padded to 128 bytes:
             // the block occupies (len + 143) & !127 bytes in total
-            let total = (body.len() + 143) & 0xFFFFFF80;
+            let len = if (0..32000).contains(x) { *x as usize } else { body.len() };
+            let total = (len + 143) & 0xFFFFFF80;
             self.num(16, 4, false);
             self.pad(4);
-            self.num(x as u32 as u64, 4, false);
-            self.num(y as u32 as u64, 4, false);
+            self.num(*x as u32 as u64, 4, false);
+            self.num(*y as u32 as u64, 4, false);
             let mut b = body.clone();
             b.resize(total - 16, 0);
             self.v.extend_from_slice(&b);
